@@ -3,9 +3,11 @@
    [decode_X old bs] = DecodeFromBytes into a layer holding [old].  The models are run against the Go
    SerializeTo/DecodeFromBytes pairs by the C08 check.  [sign] is an arbitrary function of the signed bytes:
    the statements hold for every integrity algorithm and key.  The AES layer is stated over any block
-   function pair with dec (enc b) = b on 16-byte blocks (AES-128 under any key is one; the concrete
-   Gallina AES of Aes.v is validated against crypto/aes by the check, its invertibility is a premise here). *)
+   function pair with dec (enc b) = b on 16-byte blocks, and, with no premise about the cipher, for the concrete
+   Gallina AES-128 of Aes.v under every key (AesInverse.v proves decryption inverts encryption for all keys
+   and blocks; Aes.v itself is validated against FIPS-197 vectors and crypto/aes by the check). *)
 From BMC Require Import Base Prim Layers Layers2 Serialize TwoWayProofs TwoWayIdem.
+From BMC Require Aes AesInverse AesCbcConcrete.
 
 (* decode ∘ serialise returns the value with its computed fields and the inner payload; serialising that
    value again gives the same bytes *)
@@ -70,3 +72,15 @@ Proof. exact v2session_roundtrip_unauth. Qed.
 Theorem C08_aes_trailer : forall n, aes_trailer n = aes_padbytes n ++ [N.of_nat (aes_padlen n)] /\
   (aes_padlen n <= 15)%nat /\ (n + aes_padlen n + 1 = 16 * (Nat.div n 16 + 1))%nat.
 Proof. intros n. split; [apply aes_trailer_eq|]. split; [apply aes_padlen_le|apply aes_padded_length]. Qed.
+
+(* the same for AES-128 itself, every 16-byte key, IV and payload: no premise left *)
+Theorem C08_aes128cbc_concrete : forall key iv p old bs,
+  length key = 16%nat -> Forall (fun x => x < 256) key -> length iv = 16%nat -> Forall (fun x => x < 256) iv ->
+  Forall (fun x => x < 256) p ->
+  ser_aescbc (Aes.aes128_encrypt_block key) iv p = Ok bs ->
+  decode_aescbc (Aes.aes128_decrypt_block key) old bs = Ok {| ae_payload := p |}.
+Proof. exact AesCbcConcrete.aes128_cbc_roundtrip. Qed.
+Theorem C08_aes128_block_invertible : forall key b,
+  length key = 16%nat -> length b = 16%nat -> Forall (fun x => x < 256) key -> Forall (fun x => x < 256) b ->
+  Aes.aes128_decrypt_block key (Aes.aes128_encrypt_block key b) = b.
+Proof. exact AesInverse.aes128_decrypt_encrypt. Qed.
